@@ -14,7 +14,7 @@ from .. import seams
 from ..compile import World
 from ..ctx import CTX, RunTooBig
 from ..history import History, canon, canon_outcome, digest
-from ..rng import Streams, chance, pick, weighted
+from ..rng import Streams, chance, pick, weighted, steps
 from ..sim import apply_op, form_of, build_sim, locations, readable
 from ..world import gen_inputs, gen_request, gen_situation, gen_value, gen_world, wide_knob
 from . import Result
@@ -65,7 +65,7 @@ def generate(seed: int, tier: str) -> dict:
         env["mem_seed"] = kr.randrange(1 << 30)
     orr = st["ops"]
     history = []
-    for _ in range(orr.randint(0, 8)):
+    for _ in range(steps(orr, 0, 8)):
         r = orr.random()
         v = pick(orr, world["variables"])
         if r < 0.65:
